@@ -313,7 +313,7 @@ func Check(r *core.Run) error {
 	known := r.KnownSet()
 	run := func(devs string, n int) (*tlc.Result, error) {
 		return tlc.Run(nil, tlc.Options{SpecDir: obs.SpecDir, Module: "SecurityMC", Timeout: 20 * time.Minute, Scratch: r.Scratch, Workers: 8, Heap: "8g",
-			Cfg: tlc.Cfg("CONSTANTS", fmt.Sprintf(" N = %d", n), " MaxAlts = 3", " Devs = "+devs, "INIT Init", "NEXT Next", "INVARIANTS Refines Arithmetic Bounds CallsOrdered", "CHECK_DEADLOCK FALSE")})
+			Cfg: tlc.Cfg("CONSTANTS", fmt.Sprintf(" N = %d", n), " MaxAlts = 3", " Devs = "+devs, "INIT Init", "NEXT Next", "INVARIANTS Refines Arithmetic Bounds CallsOrdered RejectDeviation", "CHECK_DEADLOCK FALSE")})
 	}
 	res, err := run("{}", 3)
 	if err != nil {
